@@ -225,6 +225,9 @@ def run_case(rng, tier, idx):
             interior = True
     c.tag('pos:interior' if interior else 'pos:edge')
     p1 = gen.build_panel(ad['panels'][0]); p2 = gen.build_panel(ad['panels'][1])
+    for q_ in (p1, p2):
+        for k_ in gen.leftovers(rng, q_):
+            c.tag('left:' + k_)
     ex = [gen.build_panel(d) for d in extras]
     seq = [p1, p2] if p1_first else [p2, p1]
     pos = sorted(int(x) for x in rng.integers(0, 3, len(ex)))
